@@ -64,7 +64,7 @@ func (c *Cache) checkLdap(user, password string) bool {
 	// Not initialized; actually do the query and record the result
 	authed := c.query(user, password)
 	ce.authed = &authed
-	timeout := c.config.CacheTime * time.Second
+	timeout := c.config.CacheTime
 	// Don't cache a negative result for a long time; likely wrong password
 	if !authed {
 		timeout = 5 * time.Second
